@@ -133,8 +133,10 @@ func StaticWorker(p *Prop, tier string, shard, n int, journalPath string, resume
 	sum := Summary{T: "sum", Shard: shard, Counters: map[string]int{}}
 	seen := map[uint64]struct{}{}
 	outcomes := map[uint64]struct{}{}
+	sentOutcomes := map[uint64]struct{}{}
 	sigs := map[string]*SigAgg{}
 	k := 0
+	ntSeen := 0
 	p.Enumerate(tier, func(spec string) {
 		sum.Enumerated++
 		h := Hash64(spec)
@@ -158,7 +160,8 @@ func StaticWorker(p *Prop, tier string, shard, n int, journalPath string, resume
 		}
 		if r.Nontrivial {
 			sum.Nontrivial++
-			if len(sum.NTSamples) < 3 && sum.Nontrivial%97 == 1 && len(spec) < maxSampleLen {
+			ntSeen++
+			if len(sum.NTSamples) < 3 && ntSeen%97 == 1 && len(spec) < maxSampleLen {
 				sum.NTSamples = append(sum.NTSamples, spec)
 			}
 		}
@@ -167,6 +170,20 @@ func StaticWorker(p *Prop, tier string, shard, n int, journalPath string, resume
 		}
 		for name, c := range r.Counters {
 			sum.Counters[name] += c
+		}
+		if sum.Executed%4000 == 0 {
+			// checkpoint: hand the counts so far to the parent so that a later death of this worker
+			// does not lose them (vacuity guards are computed from the merged counters)
+			part := Summary{T: "part", Shard: shard, Executed: sum.Executed, Nontrivial: sum.Nontrivial, Counters: sum.Counters}
+			for h := range outcomes {
+				if _, sent := sentOutcomes[h]; !sent {
+					sentOutcomes[h] = struct{}{}
+					part.Outcomes = append(part.Outcomes, h)
+				}
+			}
+			_ = enc.Encode(&part)
+			out.Flush()
+			sum.Executed, sum.Nontrivial, sum.Counters = 0, 0, map[string]int{}
 		}
 		for _, f := range r.Failures {
 			fspec := spec
@@ -191,7 +208,9 @@ func StaticWorker(p *Prop, tier string, shard, n int, journalPath string, resume
 	sum.Mine = k
 	sum.OutcomeCap = outcomeCap <= len(outcomes)
 	for h := range outcomes {
-		sum.Outcomes = append(sum.Outcomes, h)
+		if _, sent := sentOutcomes[h]; !sent {
+			sum.Outcomes = append(sum.Outcomes, h)
+		}
 	}
 	for _, a := range sigs {
 		sum.Sigs = append(sum.Sigs, a)
